@@ -191,6 +191,21 @@ func genLock(seed uint64, tier, variant string) any {
 		}
 		return p
 	}
+	if variant == "fresh" {
+		// directed: another client deletes a name's keys in the step after a Locker's script has set them, while the
+		// reply is still on its way - the invalidation then travels right behind the reply of the acquisition
+		for i, n := 0, 1+r.IntN(3); i < n; i++ {
+			p.Ghosts = append(p.Ghosts, LockGhost{MinStep: r.IntN(300), Kind: "del-fresh", Name: pick(r, p.Names...)})
+		}
+		for ti := range p.Tasks {
+			for oi := range p.Tasks[ti] {
+				if op := &p.Tasks[ti][oi]; op.HoldMs < 3*v {
+					op.HoldMs = pick(r, 3*v, 8*v) // holders stay long enough for a missed loss to show
+				}
+			}
+		}
+		return p
+	}
 	if r.IntN(2) == 0 || variant == "trynext" || variant == "maj1" {
 		return p // clean plan: no ghosts, no faults; every rule is strict
 	}
@@ -311,6 +326,9 @@ type lockMon struct {
 	harnessErr  string
 	pairFlag    map[string]bool
 	hist        []string // readable history, kept with -verif.tape
+	freshStep   map[string]int    // per name: step in which a Locker's script last set one of its keys
+	freshVal    map[string]string // ... and the value it wrote
+	freshDone   map[int]bool      // del-fresh ghosts already applied (index into the plan's ghosts)
 }
 
 func (m *lockMon) note(format string, a ...any) {
@@ -459,6 +477,12 @@ func (m *lockMon) apply(argv []string, reply resp.Value, at time.Time, scriptVal
 			}
 		}
 		m.mirror[argv[1]] = mirrorEnt{val: argv[2], exp: exp}
+		if nm, _, ok := m.parseKey(argv[1]); ok && inScript {
+			if m.freshStep == nil {
+				m.freshStep, m.freshVal = map[string]int{}, map[string]string{}
+			}
+			m.freshStep[nm], m.freshVal[nm] = m.e.sim.Step, argv[2]
+		}
 	case "DEL":
 		n := int64(0)
 		for _, k := range argv[1:] {
@@ -931,6 +955,48 @@ func execLock(t *testing.T, plan any, out *Outcome) {
 	// sleeps in its select with no wake-up pending. (A cancellation that lands while a wake-up token is pending makes
 	// WithContext's select a coin toss of the Go runtime, which no seed controls.)
 	s.UserEvents = func(s *sched.Sim) []sched.Event {
+		// del-fresh: enabled in the step after a script set a key of the name, while its reply is still undelivered
+		m.mu.Lock()
+		var fresh []sched.Event
+		for gi, g := range p.Ghosts {
+			gi, g := gi, g
+			if g.Kind != "del-fresh" || m.freshDone[gi] || s.Step < base+g.MinStep || m.freshStep[g.Name] != s.Step-1 {
+				continue
+			}
+			pending := false
+			for _, l := range s.Links {
+				if !l.Dead && len(l.S.Out) > 0 {
+					pending = true
+				}
+			}
+			if !pending {
+				continue
+			}
+			val := m.freshVal[g.Name]
+			fresh = append(fresh, sched.Event{Kind: "ghost", Key: fmt.Sprintf("g%d:del-fresh", gi), Weight: 6, Do: func() {
+				m.mu.Lock()
+				if m.freshDone == nil {
+					m.freshDone = map[int]bool{}
+				}
+				m.freshDone[gi] = true
+				var keys []string
+				for i := 0; i < m.total; i++ {
+					if k := m.keyOf(g.Name, i); m.mirror[k].val == val {
+						keys = append(keys, k)
+					}
+				}
+				m.mu.Unlock()
+				for _, k := range keys {
+					s.W.Ghost(e.addr, "DEL", k)
+				}
+				s.Stats["ghost.del-fresh-keys"] += len(keys)
+			}})
+			break
+		}
+		m.mu.Unlock()
+		if len(fresh) > 0 {
+			return fresh
+		}
 		if s.ParkedCount() > 0 || len(s.Net.PendingDials()) > 0 {
 			return nil
 		}
@@ -964,6 +1030,9 @@ func execLock(t *testing.T, plan any, out *Outcome) {
 			if i >= 0 && i < m.total {
 				keys = append(keys, m.keyOf(g.Name, i))
 			}
+		}
+		if g.Kind == "del-fresh" {
+			continue // applied through UserEvents below, when a key has just been set
 		}
 		s.Ghosts = append(s.Ghosts, &sched.GhostOp{Name: g.Kind + " " + strings.Join(keys, ","), MinStep: base + g.MinStep, Do: func(s *sched.Sim) {
 			switch g.Kind {
